@@ -267,7 +267,7 @@ static void on_signal(int sig) {
 static void * watchdog(void * a) {
   int i;
   (void)a;
-  for (i = 0; i < 100; i++) usleep(100000);
+  for (i = 0; i < 200; i++) usleep(100000);
   recording = 0;
   dump("hang");
   _exit(124);
